@@ -291,6 +291,10 @@ pub fn run_history(h: &History, cfg: &RunCfg, fault: Option<Fault>, fault2: Opti
         if !wd.failed() {
             oracle::check_qp(wd, "op");
         }
+        let y = wd.yield_every.get();
+        if y > 0 && (i as u32) % y == 0 {
+            std::thread::yield_now();
+        }
         mutated |= wd.coll_mutated.get();
         steps = i + 1;
         if wd.failed() || !wd.harness_errors.borrow().is_empty() {
@@ -381,7 +385,7 @@ pub struct Shard {
 
 impl Shard {
     /// Reports the violations of one run. Returns true if the shard must stop (memory may be corrupted).
-    fn report(&mut self, h: &History, out: &Outcome, idx_args: &[String], fault: Option<Fault>, fault2: Option<Fault>) {
+    pub fn report(&mut self, h: &History, out: &Outcome, idx_args: &[String], fault: Option<Fault>, fault2: Option<Fault>) {
         for e in &out.harness_errors {
             self.rep.inconclusive(format!("harness error: {}", e));
             self.stop = true;
@@ -534,6 +538,9 @@ pub fn main(args: &Args) -> i32 {
     sh.rep.set_add("features", feature_string());
     sh.rep.set_add("profile", if cfg!(debug_assertions) { "debug" } else { "release" });
 
+    if gen == "threads" {
+        return crate::threads::main(args, seed, &mode, sh);
+    }
     if gen == "policy" {
         let rounds = args.u64("--rounds", 20);
         let steps = args.u64("--steps", 400);
